@@ -23,7 +23,7 @@ def fill(nodes, sp):
     """{sp} inside argument strings stands for the blank variant under test"""
     out = []
     for n in nodes:
-        if n[0] == 't':
+        if n[0] in ('t', 'ent'):
             out.append(n)
         elif n[0] == 'leaf':
             out.append((n[0], n[1], n[2].replace('{sp}', sp)))
@@ -39,6 +39,8 @@ def p_dtml(nodes, opt):
     for n in nodes:
         if n[0] == 't':
             out.append(n[1])
+        elif n[0] == 'ent':
+            out.append('&dtml%s-%s;' % (''.join('.' + m for m in n[2]), n[1]) if n[2] else '&dtml-%s;' % n[1])
         elif n[0] == 'leaf':
             out.append('<dtml-%s%s%s>' % (n[1], sp if n[2] else '', n[2]))
         else:
@@ -60,6 +62,8 @@ def p_ssi(nodes, opt):
     for n in nodes:
         if n[0] == 't':
             out.append(n[1])
+        elif n[0] == 'ent':
+            out.append('<!--#var %s%s-->' % (n[1], ''.join(' ' + m for m in (n[2] or ['html_quote']))))
         elif n[0] == 'leaf':
             out.append('<!--#%s%s%s-->' % (n[1], sp if n[2] else '', n[2]))
         else:
@@ -80,6 +84,8 @@ def p_epfs(nodes, opt):
     for n in nodes:
         if n[0] == 't':
             out.append(n[1])
+        elif n[0] == 'ent':
+            out.append('%%(%s%s)s' % (n[1], ''.join(' ' + m for m in (n[2] or ['html_quote']))))
         elif n[0] == 'leaf':
             if n[1] == 'var':
                 a = n[2]
@@ -213,6 +219,11 @@ def B(name, args, *secs):
     return ('block', name, args, list(secs))
 
 
+def E(name, *mods):
+    """entity reference in the dtml variant (&dtml.m1.m2-name; / &dtml-name;), equivalent var tag in the other two"""
+    return ('ent', name, list(mods))
+
+
 def S(nodes, cont=None, cargs=''):
     return (cont, cargs, nodes)
 
@@ -252,6 +263,9 @@ def templates(ch, av):
         [B('if', 'c', S([T('T' + ch)]), S([T('F')], 'else', 'c'))],
         [B('if', 'c{sp}', S([T('T')]), S([T(ch)], 'elif', 'd'), S([T('F')], 'else', 'c'))],
         [L('var', 'x{sp}upper{sp}null="%s"' % av), L('var', 'x{sp}fmt="%s%%s"' % av)],
+        [B('if', 'c', S([T('y')])), E('x', 'url_quote'), T(ch), B('in', 's', S([T('i')])), E('x'), E('x', 'upper', 'spacify')],
+        [E('x', 'url_quote'), B('if', 'c', S([E('x', 'lower'), T(ch)]), S([E('x')], 'else')), E('x', 'sql_quote')],
+        [B('with', 'w mapping', S([T(ch)])), E('x', 'html_quote', 'newline_to_br'), B('try', '', S([T('t')]), S([T('f')], 'finally')), E('x', 'thousands_commas')],
         # malformed: all three must reject
         [B('if', 'c', S([T(ch)]), S([T('a')], 'else'), S([T('b')], 'else'))],
         [L('var', 'x bogus=1'), T(ch)],
